@@ -73,16 +73,47 @@ def parse_attr(a):
                 ckok=(sum(a[0:14]) & 0xFFFF) == int.from_bytes(a[14:16], "big"))
 
 
+def gen_block(g, b):
+    """Content of data block b of a lazily served tag (mirrors GenBlk in spec/T3Tag.tla)."""
+    return bytes((g + 31 * b + 7 * j + 13 * (b // 256)) % 251 for j in range(1, 17))
+
+
+class _Blocks(object):
+    """Block 0 (attribute block) + data blocks 1..n; with gen != None data blocks that were never
+    written are served from gen_block() (tags with up to 65535 blocks cost nothing)."""
+
+    def __init__(self, attr, n, gen, data):
+        self.attr, self.n, self.gen = bytearray(attr), n, gen
+        self.store = {}
+        if gen is None:
+            for i in range(n):
+                self.store[i + 1] = bytearray(data[i * 16:(i + 1) * 16])
+
+    def __len__(self):
+        return self.n + 1
+
+    def __getitem__(self, b):
+        if b == 0:
+            return self.attr
+        if not 1 <= b <= self.n:
+            raise IndexError(b)
+        if b not in self.store:
+            self.store[b] = bytearray(gen_block(self.gen, b))
+        return self.store[b]
+
+
 class SimT3T(object):
     def __init__(self, attr, data=b"", nblocks=None, idm=bytes.fromhex("02FE000102030405"),
                  pmm=bytes.fromhex("00FFFFFFFFFFFFFF"), nbr_phys=None, nbw_phys=None,
-                 other=b"\x5A" * 32, cut_after=None, fill=0x00):
+                 other=b"\x5A" * 32, cut_after=None, fill=0x00, gen=None):
         attr = bytes(attr)
         assert len(attr) == 16
         nmaxb = int.from_bytes(attr[3:5], "big")
         nblocks = nmaxb if nblocks is None else nblocks
-        mem = bytearray(data) + bytearray([fill]) * max(0, nblocks * 16 - len(data))
-        self.blocks = [bytearray(attr)] + [bytearray(mem[i * 16:(i + 1) * 16]) for i in range(nblocks)]
+        mem = b"" if gen is not None else bytearray(data) + bytearray([fill]) * max(0, nblocks * 16 - len(data))
+        self.nblocks, self.gen = nblocks, gen
+        self.blocks = _Blocks(attr, nblocks, gen, mem)
+        self.written = set()        # data blocks changed by an executed write (lazy tags: the materialised ones)
         self.other = [bytearray(other[i:i + 16]) for i in range(0, len(other), 16)]
         self.idm, self.pmm = bytes(idm), bytes(pmm)
         self.nbr_phys = attr[1] if nbr_phys is None else nbr_phys
@@ -103,8 +134,14 @@ class SimT3T(object):
     def sensf_res(self):
         return b"\x01" + self.idm + self.pmm + b"\x12\xFC"
 
-    def memory(self):
-        return b"".join(bytes(b) for b in self.blocks)
+    def attr_block(self):
+        return bytes(self.blocks.attr)
+
+    def image(self):
+        """[[block number, 16 bytes], ..] of the data blocks the tag holds explicitly: all of them, or for a
+        lazily served tag (gen) the ones that were written."""
+        bs = range(1, self.nblocks + 1) if self.gen is None else sorted(self.written)
+        return [[b, list(self.blocks[b])] for b in bs]
 
     def other_memory(self):
         return b"".join(bytes(b) for b in self.other)
@@ -207,6 +244,8 @@ class SimT3T(object):
                 return bytes([1 << (i % 8), 0xA8])
         for i, (sc, num) in enumerate(lst):
             self._area(sc)[num][:] = rest[16 * i:16 * i + 16]
+            if sc != SC_OTHER and num > 0:
+                self.written.add(num)
         self.nwrites += 1
         rec["ok"] = True
         return b"\x00\x00"
